@@ -44,6 +44,56 @@ pub fn guarded<T>(f: impl FnOnce() -> T + panic::UnwindSafe) -> Result<T, String
     })
 }
 
+thread_local! {
+    static DISTURB_TICK: std::cell::Cell<u64> = const { std::cell::Cell::new(0) };
+}
+
+/// History perturbation.  Every answer of the library is a function of the object asked and the query, so calls
+/// whose results are thrown away must not change anything that is recorded afterwards.  Before one in three handle
+/// creations (handles::with_handle), on the calling thread, this runs calls that take the library's early-return
+/// and error paths: cache writes into sinks that fail at their 2nd / 3rd / 5th call, descriptors whose return type
+/// or parameter is cut short, a parameter lookup with the empty parameter string, a malformed stack trace, a uuid.
+/// Whatever such a call leaves behind (a scratch buffer that is only cleared on success, a memo keyed too loosely)
+/// then meets the recorded calls.  Two of three creations stay undisturbed, so that what depends on two recorded
+/// calls being adjacent is not masked.
+pub fn disturb() {
+    let n = DISTURB_TICK.with(|t| {
+        t.set(t.get() + 1);
+        t.get()
+    });
+    if n % 3 != 0 {
+        return;
+    }
+    const MAP: &[u8] = b"a.B -> a:\n    1:2:void m(int) -> b\n    void n() -> c\n    void n() -> b\nx.Y -> b:\n    int f -> d\n    3:4:void o():7:9 -> e\n";
+    let _ = guarded(|| {
+        use proguard::{ProguardCache, ProguardMapper, ProguardMapping, StackFrame};
+        for (k, kind) in [(2usize, -2i64), (3, -3), (5, -2), (4, -5)] {
+            let mut s = sink::ScriptedSink::new([vec![1 << 30; k - 1], vec![kind]].concat(), 1 << 30);
+            let _ = ProguardCache::write(&ProguardMapping::new(MAP), &mut s);
+        }
+        let bad = ["(I)[[La/b", "()[", "(La/b", "(I)La", "([[", "(L\u{e9}"];
+        let m = ProguardMapper::new_with_param_mapping(ProguardMapping::new(MAP), true);
+        for sig in bad {
+            let _ = m.deobfuscate_signature(sig);
+        }
+        let _ = m.remap_frame(&StackFrame::with_parameters("a", "b", "")).count();
+        let _ = m.remap_stacktrace("  \n\tat a.b(X:1)\nCaused by: \n    at a.b(");
+        let mut out = Vec::new();
+        if ProguardCache::write(&ProguardMapping::new(MAP), &mut out).is_ok() {
+            let buf = handles::Aligned::new(&out);
+            if let Ok(c) = ProguardCache::parse(buf.bytes()) {
+                for sig in bad {
+                    let _ = c.deobfuscate_signature(sig);
+                }
+                let _ = c.remap_frame(&StackFrame::with_parameters("a", "b", "")).count();
+                let _ = c.remap_frame(&StackFrame::new("a", "b", 1)).count();
+                let _ = c.remap_stacktrace("  \n\tat a.b(X:1)\nCaused by: \n    at a.b(");
+            }
+        }
+        let _ = ProguardMapping::new(MAP).uuid();
+    });
+}
+
 fn main() {
     let args: Vec<String> = std::env::args().collect();
     if args.len() < 4 {
